@@ -917,12 +917,12 @@ def _cp_hist_case(draw):
     return c
 
 
-def _cp_check_views(obj, model, tag, bk, norm_first):
+def _cp_check_views(obj, model, tag, bk, norm_first, floor=0.0):
     w_m, fs_m = model
     R = fs_m[0].shape[1]
     shape = tuple(f.shape[0] for f in fs_m)
     dense_m = ref.cp_dense(w_m, fs_m)
-    scale_m = R * X.amax(w_m) * float(np.prod([X.amax(f) for f in fs_m]))
+    scale_m = max(R * X.amax(w_m) * float(np.prod([X.amax(f) for f in fs_m])), floor)   # floor: see _tucker_check_views
     pre = f"cp_history/{{}}/{tag}@{bk}"
     # ---- dense tensor of the object's CURRENT attributes
     w_a = as_array(obj.weights, pre.format("state"))
@@ -979,6 +979,8 @@ def _cp_run_history(case, bk):
                 res = obj.mode_dot(gen.dec(op["m"]), k, **kw)
             else:
                 res = tl.cp_mode_dot(obj, gen.dec(op["m"]), k, **kw)
+            floor = (model[1][0].shape[1] * X.amax(model[0]) * float(np.prod([X.amax(f) for f in model[1]]))
+                     * X.amax(gen.dec(op["m"])) * model[1][k].shape[0])
             if op["operand"] == "vector_contract":
                 col = gen.dec(op["m"]) @ model[1][k]
                 model[1].pop(k)
@@ -1023,7 +1025,7 @@ def _cp_run_history(case, bk):
                 obj[0] = a
             model[0] = a.copy()
         tag = "after:" + kind      # the variant (operand / method vs function / copy flag) is in the labels and the replay
-        _cp_check_views(obj, model, tag, bk, nf)
+        _cp_check_views(obj, model, tag, bk, nf, floor=floor if kind == "mode_dot" else 0.0)
         if kind in ("normalize", "mode_dot"):
             # same tensor (just checked) but the library may distribute it differently over the components
             # (normalisation; a contracted vector is absorbed into a neighbouring factor): later component
@@ -1066,12 +1068,14 @@ def _tucker_hist_case(draw):
     return c
 
 
-def _tucker_check_views(obj, model, tag, bk):
+def _tucker_check_views(obj, model, tag, bk, floor=0.0):
     core_m, fs_m = model
     shape = tuple(f.shape[0] for f in fs_m)
     ranks = tuple(core_m.shape)
     dense_m = ref.tucker_dense(core_m, fs_m)
-    scale_m = _tucker_scale(core_m, fs_m, ranks)
+    # `floor`: magnitude of the terms that were summed by the operation just applied (cancellation-aware: when the
+    # products cancel exactly in the model, the library's differently ordered / fused sum may leave a rounding residue)
+    scale_m = max(_tucker_scale(core_m, fs_m, ranks), floor)
     pre = f"tucker_history/{{}}/{tag}@{bk}"
     core_a = as_array(obj.core, pre.format("state"))
     fs_a = [as_array(f, pre.format("state")) for f in obj.factors]
@@ -1114,6 +1118,7 @@ def _tucker_run_history(case, bk):
                 res = obj.mode_dot(gen.dec(op["m"]), k, **kw)
             else:
                 res = tl.tucker_mode_dot(obj, gen.dec(op["m"]), k, **kw)
+            floor = _tucker_scale(model[0], model[1], model[0].shape) * X.amax(gen.dec(op["m"])) * model[1][k].shape[0]
             if op["operand"] == "vector_contract":
                 col = gen.dec(op["m"]) @ model[1][k]
                 model[0] = ref.mode_dot_vector(model[0], col, k)
@@ -1145,7 +1150,7 @@ def _tucker_run_history(case, bk):
                 obj[0] = a
             model[0] = a.copy()
         tag = "after:" + kind      # the variant (operand / method vs function / copy flag) is in the labels and the replay
-        _tucker_check_views(obj, model, tag, bk)
+        _tucker_check_views(obj, model, tag, bk, floor=floor if kind == "mode_dot" else 0.0)
         if kind in ("normalize", "mode_dot"):
             model = [np.array(obj.core), [np.array(f) for f in obj.factors]]
 
